@@ -105,7 +105,9 @@ def fixed_bins(nchrom, off, start, end, clen, b):
 
 def chrom_of_bin_ok(nchrom, off, chrom):
     """bins/chrom column agrees with the chromosome offsets"""
-    return forall(0, nchrom, lambda c: forall(off[c], off[c + 1], lambda k: chrom[k] == c))
+    return And(forall(0, nchrom, lambda c: forall(off[c], off[c + 1], lambda k: chrom[k] == c)),
+               # the two end points spelled out (instances of the clause above, off[c] < off[c+1])
+               forall(0, nchrom, lambda c: And(chrom[off[c]] == c, chrom[off[c + 1] - 1] == c)))
 
 
 def valid_bins_at(off, start, end, clen, c):
